@@ -495,8 +495,8 @@ fn sort_case(sc: &SortCircuit, vals: &[D4], rng: &mut Rng, t: &mut Tally, sweep:
 
 pub fn run_c31(ctx: &Ctx) {
     let lens: Vec<usize> = ctx.tier.pick(vec![1, 2, 3, 4, 5, 7, 8, 12, 16], vec![1, 2, 3, 4, 5, 6, 7, 8, 9, 12, 16, 24, 32, 48, 64]);
-    let per_len = ctx.tier.pick(1200usize, 60_000);
-    let sweeps_per_len = ctx.tier.pick(24usize, 600);
+    let per_len = ctx.tier.pick(1200usize, 20_000);
+    let sweeps_per_len = ctx.tier.pick(24usize, 240);
     // lists longer than 5 have thousands of hint generators: sweep a random subset per list
     let gens_cap = ctx.tier.pick(120usize, 400);
     ctx.set_rule(&format!(
